@@ -268,6 +268,12 @@ def run(ctx):
             bad = next((n for n in names if n not in td or not same(td[n], d[n], True)), None)
             ctx.check("construct+to_dict:" + kind, ok, "to_dict/construction:%s" % kind, "to_dict()[%s] = %r, dense = %r" % (bad, np.asarray(td.get(bad)).tolist() if bad in td else None, d[bad].tolist() if bad else None),
                       dict(wit, track=ti, chrom=bad), nt and (nt, ti))
+            # the kind of number the track holds (integer / float / boolean) is that of its records, also when there are none: arithmetic follows it
+            kinds_got = {n: np.asarray(td[n]).dtype.kind for n in names if n in td}
+            want_kind = {"int": "iu", "float": "f", "bool": "b"}[kind]
+            badk = next((n for n in names if kinds_got.get(n, "?") not in want_kind), None)
+            ctx.check("construct+to_dict:" + kind, badk is None, "to_dict/number-kind-differs:%s%s" % (kind, ":track-without-records" if not any(len(v) for v in recs_all[ti].values()) else ""),
+                      "a %s track expands to an array of dtype kind %r on %s" % (kind, kinds_got.get(badk), badk), dict(wit, track=ti, chrom=badk), None)
             # pileup of an interval multiset equals coverage
         # pileup
         if r.random() < 0.5:
